@@ -57,7 +57,8 @@ class SampleWorld:
         v = Vals(s)
         roles = {"quantile": R.quantile(), "decompose": R.decompose(), "reader_ctor": R.reader_adt()["ctor"], "read": R.read_fn()}
         # by result-field provenance
-        aggs = list(pat.aggregates(s, "TropicalSampleResult"))
+        from .common import built_structs as _bs
+        aggs = list(_bs(self.f, R, s, "TropicalSampleResult"))
         from .common import built_structs
         mds = list(built_structs(self.f, R, s, "Metadata"))
         if len(aggs) != 1 or len(mds) != 1:
